@@ -38,7 +38,8 @@ RULE = ("histories are drawn by a Hypothesis rule-based state machine (<= %d ste
         "(p, modelled options). Non-trivial: the history sets an option on one object and later "
         "converts with a different object or with no options; distinct by action sequence.")
 
-_NAME = re.compile(r"__ol_([a-z]+)_([a-z]{10})\b")
+# purpose + random suffix; the length of the suffix is not part of the property
+_NAME = re.compile(r"__ol_([a-z]+)_([a-z]+)\b")
 
 
 def normalise(text):
@@ -374,6 +375,73 @@ def _machine_shard(item):
     return part
 
 
+STATEFUL_PROGRAMS = ["long_string_plain", "long_string_in_field", "long_string_nested", "long_decorated",
+                     "many_helpers", "for_break", "while_break_else", "import_plain", "class_inherit_super",
+                     "rejected:starred_comp_target_in_lambda", "rejected:attr_comp_target_in_class",
+                     "rejected:walrus_while_deep", "closure", "comprehensions"]
+
+
+def _pair_shard(item):
+    """every ordered pair (X, Y) of the state-sensitive programs, converted one after the other in
+    ONE process under each unparser: anything X leaves behind that changes Y shows against the
+    fresh-process reference of Y"""
+    idx, nshards = item
+    part = new_part()
+    ex = Executor()
+    hist = []
+
+    def step(act):
+        hist.append(list(act))
+        return ex.do(tuple(act))
+
+    step(("new",))
+    pairs = [(x, y) for x in STATEFUL_PROGRAMS for y in STATEFUL_PROGRAMS if x in PROGRAMS and y in PROGRAMS]
+    for k in range(idx, len(pairs), nshards):
+        x, y = pairs[k]
+        for unparser in env.UNPARSERS:
+            for wrapper in ("chain_call", "list") if k % 2 else ("list",):
+                d = step(("set", 0, "unparser", unparser)) or step(("set", 0, "expr_wrapper", wrapper))
+                for prog in (x, y, x):
+                    d = d or step(("conv", 0, prog))
+                part["evaluations"] += 1
+                part["nontrivial"].add(key_hash("pair", x, y, unparser, wrapper))
+                if d:
+                    small = [["new"], ["set", 0, "unparser", unparser], ["set", 0, "expr_wrapper", wrapper],
+                             ["conv", 0, x], ["conv", 0, y], ["conv", 0, x]]
+                    use = small if _replay_in_fresh_process(small) else list(hist)
+                    part["violations"].append({"payload": {"kind": "history", "history": use}, "diffs": [d],
+                                               "what": "converting %r changes a later conversion of %r (or of itself)" % (x, y)})
+                    return part
+    return part
+
+
+def _seed_shard(item):
+    """the result must not depend on the state of the random generator: many seeds, one program
+    with many helper names, each compared with the fresh-process reference"""
+    lo, hi = item
+    import oneliner
+    part = new_part()
+    for pname in ("many_helpers", "long_decorated"):
+        for cfg in (env.DEFAULT_CFG, ("oneliner", "list", "short_circuit")):
+            ref = REFS[(pname, tuple(cfg))]
+            for sd in range(lo, hi):
+                random.seed(sd)
+                got = outcome_of(lambda: oneliner.convert_code_string(PROGRAMS[pname], configs=env.make_cfg(cfg)))
+                part["evaluations"] += 1
+                if got != ref:
+                    part["violations"].append({
+                        "payload": {"kind": "history", "history": [["new"], ["set", 0, "unparser", cfg[0]],
+                                                                   ["set", 0, "expr_wrapper", cfg[1]], ["set", 0, "if_style", cfg[2]],
+                                                                   ["seed", sd], ["conv", 0, pname]]},
+                        "diffs": ["with random.seed(%d) the conversion of %r differs from the fresh-process result "
+                                  "beyond a renaming of the helper names" % (sd, pname)],
+                        "what": "conversion depends on the state of the random generator"})
+                    return part
+    part["nontrivial"].add(key_hash("seeds", lo, hi))
+    part["nontrivial"].add(key_hash("seeds-b", lo, hi))
+    return part
+
+
 def run(report):
     quick = report.tier == "quick"
     report.rule = RULE % (10 if quick else 16)
@@ -397,6 +465,14 @@ def run(report):
         if _replay_in_fresh_process(h):
             report.violations.append({"payload": {"kind": "history", "history": h},
                                       "diffs": run_history_fresh_diffs(h), "what": "history-dependent conversion result"})
+    for part in env.pmap(_pair_shard, [(i, env.NPROC) for i in range(env.NPROC)]):
+        report.absorb(part)
+    n_seeds = 1600 if quick else 16000
+    step = n_seeds // env.NPROC
+    for part in env.pmap(_seed_shard, [(i * step, (i + 1) * step) for i in range(env.NPROC)]):
+        report.absorb(part)
+    report.extra["ordered_pairs"] = len(STATEFUL_PROGRAMS) ** 2
+    report.extra["random_states_tried"] = n_seeds
     n_sh = env.NPROC
     per = 60 if quick else 800
     items = [(env.sub_seed(report.seed, "C10", i), per, 10 if quick else 16) for i in range(n_sh)]
